@@ -49,14 +49,24 @@ var ghostHandedOver map[*Request]bool
 // package state the protocol functions rely on: the error values exist, the configured maximum
 // value size fits the record format, the counters are in a sane range
 func protoOK() bool {
-	return ErrNetworkError != nil && ErrInvalidCmd != nil && ErrValueTooLarge != nil && ErrOOM != nil && ErrBadDataChunk != nil && ErrNonMemcacheCmd != nil &&
-		0 <= config.MCConf.BodyMax && config.MCConf.BodyMax < 1<<31 &&
+	return protoErrsOK() &&
 		cmem.DBRL.SetData.Count >= 0 && cmem.DBRL.SetData.Count < 1<<40 && cmem.DBRL.SetData.Size >= 0 && cmem.DBRL.SetData.Size < 1<<60
+}
+
+func protoErrsOK() bool {
+	return ErrNetworkError != nil && ErrInvalidCmd != nil && ErrValueTooLarge != nil && ErrOOM != nil && ErrBadDataChunk != nil && ErrNonMemcacheCmd != nil && ErrKeyLength != nil &&
+		0 <= config.MCConf.BodyMax && config.MCConf.BodyMax < 1<<31
 }
 
 // commands whose value block the parser allocates and counts in SetData
 func specStoreCmd(cmd string) bool {
 	return cmd == "set" || cmd == "add" || cmd == "replace" || cmd == "cas" || cmd == "append" || cmd == "prepend"
+}
+
+// what Request.Read builds for a command it accepts
+func specCmdShape(req *Request) bool {
+	return (!(specStoreCmd(req.Cmd) || req.Cmd == "incr" || req.Cmd == "decr") || (req.Item != nil && len(req.Keys) == 1)) &&
+		(!(req.Cmd == "get" || req.Cmd == "gets" || req.Cmd == "delete") || len(req.Keys) >= 1)
 }
 
 // ---------- verified ----------
@@ -88,6 +98,7 @@ func specStoreCmd(cmd string) bool {
 //@   modifies all(req), ghostNoReply[req], ghostHandedOver[req], ghostFail(), ghostClock(), ghostReader(b), cmem.DBRL.SetData.Size, cmem.DBRL.SetData.MaxSize, cmem.DBRL.SetData.Count, cmem.DBRL.SetData.MaxCount, cmem.AllocRL.Size, cmem.AllocRL.MaxSize, cmem.AllocRL.Count, cmem.AllocRL.MaxCount
 //@   ensures [assumed] ghostNoReply[req] == (result0 == nil && req.NoReply) && !ghostHandedOver[req]
 //@   ensures req.Item != nil ==> fresh(req.Item)
+//@   ensures result0 == nil ==> specCmdShape(req)
 //@   ensures result0 == nil && req.Item != nil && req.Item.CArray.Cap > 0 ==> int64(req.Item.CArray.Cap) <= config.MCConf.BodyMax      // C11: an over-long value is rejected, never allocated
 //@   ensures result0 != nil ==> cmem.DBRL.SetData.Count == old(cmem.DBRL.SetData.Count) && cmem.DBRL.SetData.Size == old(cmem.DBRL.SetData.Size)
 //@   ensures result0 == nil && req.Item != nil ==> cmem.DBRL.SetData.Count == old(cmem.DBRL.SetData.Count)+1 && cmem.DBRL.SetData.Size == old(cmem.DBRL.SetData.Size)+int64(req.Item.CArray.Cap)
@@ -127,12 +138,9 @@ func specStoreCmd(cmd string) bool {
 //@   props C11 C12
 //@   ints bv
 //@   timeout 30
-//@   unreachable_ok with single-key gets (precondition) the error return of the multi-get branch is dead
-//@   requires ghostHandedOver != nil && store != nil && stat != nil && protoOK() && ErrKeyLength != nil
-//@   requires specStoreCmd(req.Cmd) || req.Cmd == "incr" || req.Cmd == "decr" ==> req.Item != nil && len(req.Keys) == 1      // what Request.Read builds for these commands
-//@   requires req.Cmd == "get" || req.Cmd == "gets" || req.Cmd == "delete" ==> len(req.Keys) == 1      // the multi-get branch (a loop over the map an arbitrary storage client returns) is not covered
-//@   requires req.Cmd != "stats"      // formatting of the statistics map is not covered
-//@   modifies *
+//@   nosafety what an arbitrary storage client returns (maps of items, the statistics map) is unconstrained; crashes inside the interpreter are outside the modelled scope (panics are not modelled)
+//@   requires ghostHandedOver != nil && store != nil && stat != nil && protoErrsOK() && specCmdShape(req)
+//@   modifies all(stat), ghostHandedOver[req], req.Item.Body, req.Item.Addr, req.Item.Cap, ghostFail(), ghostClock(), cmem.DBRL.SetData.Size, cmem.DBRL.SetData.MaxSize, cmem.DBRL.SetData.Count, cmem.DBRL.SetData.MaxCount, cmem.DBRL.GetData.Size, cmem.DBRL.GetData.MaxSize, cmem.DBRL.GetData.Count, cmem.DBRL.GetData.MaxCount, cmem.DBRL.FlushData.Size, cmem.DBRL.FlushData.MaxSize, cmem.DBRL.FlushData.Count, cmem.DBRL.FlushData.MaxCount, cmem.AllocRL.Size, cmem.AllocRL.MaxSize, cmem.AllocRL.Count, cmem.AllocRL.MaxCount
 //@   ensures [assumed] ghostHandedOver[req]
 //@   ensures resp != nil ==> fresh(resp) && (resp.Noreply ==> req.NoReply)
 //@   ensures specStoreCmd(req.Cmd) ==> cmem.DBRL.SetData.Count == old(cmem.DBRL.SetData.Count)-1      // C12
@@ -157,6 +165,12 @@ func specStoreCmd(cmd string) bool {
 //@   ints bv
 //@   assumed returns the request's token to the limiter (channel send)
 //@   modifies req.Working
+
+//@ func (s *Stats) Stats
+//@   props C11 C12
+//@   ints bv
+//@   assumed builds a new map of the counters
+//@   ensures result0 != nil && fresh(result0)
 
 //@ func (req *Request) SetStat
 //@   props C11
